@@ -7,11 +7,12 @@ import JugModel.Driver.Store
 import JugModel.Driver.Graph
 import JugModel.Driver.Views
 import JugModel.Driver.Loader
+import JugModel.Driver.Loop
 /-! Line-protocol driver: one JSON object per input line, one JSON answer per output line.
     Imports the executable models only (never `Props`), so it still builds when a proof breaks. -/
 open Lean Jug.Drv
 
-def handlers : List (String → Json → Option Json) := [handleMR, handleOpt, handleHash, handleExec, handleLock, handleStore, handleGraph, handleViews, handleLoader]
+def handlers : List (String → Json → Option Json) := [handleMR, handleOpt, handleHash, handleExec, handleLock, handleStore, handleGraph, handleViews, handleLoader, handleLoop]
 
 def dispatch (j : Json) : Json :=
   let op := getStr j "op"
